@@ -39,9 +39,16 @@ def relation_traces(ctx, T):
     recs = []
     for label, mk, xs, _bps in tc.catalogue(T):
         t = mk()
+        nset = len(recs)
         try:
-            y = tc.quiet(t.forward, xs.copy())
-            xb = tc.quiet(t.backward, y.copy())
+            if nset % 3 == 1:
+                # the re-parameterised instance is asked for backward FIRST (forward values come from a fresh twin):
+                # a delegate object synchronised only by forward would use the previous parameters
+                y = tc.quiet(mk.fresh().forward, xs.copy())
+                xb = tc.quiet(t.backward, y.copy())
+            else:
+                y = tc.quiet(t.forward, xs.copy())
+                xb = tc.quiet(t.backward, y.copy())
             ok = np.isfinite(y)
             ys = y[ok & (np.abs(y) > 1e-9)]
             yb = tc.quiet(t.forward, tc.quiet(t.backward, ys.copy()))
